@@ -15,3 +15,4 @@ import Gomjml.Props.C04
 #print axioms Gomjml.Props.C04.C04_void_normaliser_respells_only
 #print axioms Gomjml.Props.C04.C04_text_content_delivered
 #print axioms Gomjml.Props.C04.C04_text_content_delivered_behind_cdata
+#print axioms Gomjml.Props.C04.C04_text_end_to_end
